@@ -31,6 +31,7 @@ func checkC18(p *Prog, c *Check) {
 	c18Middleware(p, c)
 	c18Mount(p, c)
 	c18Spec(p, c)
+	configPass(p, c, "C18-R5")
 }
 
 func c18Middleware(p *Prog, c *Check) {
